@@ -2,6 +2,7 @@ package main
 
 import (
 	"bytes"
+	"regexp"
 	"context"
 	"fmt"
 	"os/exec"
@@ -77,9 +78,317 @@ func runOne(ctx context.Context, sd solverDef, script string, timeoutS int) Solv
 // Solve races the installed solvers; the first sat/unsat wins. If all is true every
 // solver is run to completion and a sat/unsat conflict is reported as status "conflict".
 func Solve(script string, timeoutS int, all bool) SolverResult {
+	return SolveLight(script, "", timeoutS, all)
+}
+
+// lightScript weakens the hypotheses of a script by removing their quantified parts: a
+// quantifier in positive position becomes true, in negative position false; an assertion in
+// which a quantifier occurs under both polarities is dropped. The goal (last assertion) is kept.
+// Weakening hypotheses is sound for refutation: unsat of the light script implies unsat of the
+// full one (sat means nothing).
+func lightScript(script string) string {
+	var b strings.Builder
+	changed := 0
+	lines := strings.Split(script, "\n")
+	last := -1
+	for i, ln := range lines {
+		if strings.HasPrefix(ln, "(assert ") {
+			last = i
+		}
+	}
+	for i, ln := range lines {
+		if strings.HasPrefix(ln, "(get-value") {
+			continue
+		}
+		if i != last && strings.HasPrefix(ln, "(assert ") && (strings.Contains(ln, "(forall ") || strings.Contains(ln, "(exists ")) {
+			changed++
+			if w, ok := weakenAssert(ln); ok {
+				b.WriteString(w)
+				b.WriteByte('\n')
+			}
+			continue
+		}
+		if i != last && strings.HasPrefix(ln, "(define-fun ") && (strings.Contains(ln, "(forall ") || strings.Contains(ln, "(exists ")) && !strings.HasPrefix(ln, "(define-fun sp_") {
+			return "" // a quantified definition in the path: no light variant
+		}
+		b.WriteString(ln)
+		b.WriteByte('\n')
+	}
+	if changed == 0 {
+		return ""
+	}
+	return b.String()
+}
+
+type sx struct {
+	atom string
+	kids []*sx
+}
+
+func parseSx(s string, pos *int) *sx {
+	for *pos < len(s) && (s[*pos] == ' ' || s[*pos] == '\t') {
+		*pos++
+	}
+	if *pos >= len(s) {
+		return nil
+	}
+	if s[*pos] == '(' {
+		*pos++
+		n := &sx{}
+		for {
+			for *pos < len(s) && s[*pos] == ' ' {
+				*pos++
+			}
+			if *pos >= len(s) {
+				return nil
+			}
+			if s[*pos] == ')' {
+				*pos++
+				return n
+			}
+			k := parseSx(s, pos)
+			if k == nil {
+				return nil
+			}
+			n.kids = append(n.kids, k)
+		}
+	}
+	st := *pos
+	if s[*pos] == '|' {
+		*pos++
+		for *pos < len(s) && s[*pos] != '|' {
+			*pos++
+		}
+		*pos++
+	} else if s[*pos] == '"' {
+		*pos++
+		for *pos < len(s) && s[*pos] != '"' {
+			*pos++
+		}
+		*pos++
+	} else {
+		for *pos < len(s) && s[*pos] != ' ' && s[*pos] != '(' && s[*pos] != ')' {
+			*pos++
+		}
+	}
+	return &sx{atom: s[st:*pos]}
+}
+
+func (n *sx) String() string {
+	if n.kids == nil && n.atom != "" {
+		return n.atom
+	}
+	parts := make([]string, len(n.kids))
+	for i, k := range n.kids {
+		parts[i] = k.String()
+	}
+	return "(" + strings.Join(parts, " ") + ")"
+}
+
+func (n *sx) hasQuant() bool {
+	if n.kids == nil {
+		return false
+	}
+	if len(n.kids) > 0 && (n.kids[0].atom == "forall" || n.kids[0].atom == "exists") {
+		return true
+	}
+	for _, k := range n.kids {
+		if k.hasQuant() {
+			return true
+		}
+	}
+	return false
+}
+
+// weaken returns a formula implied by n (pol=+1) or implying n (pol=-1) without quantifiers.
+func weaken(n *sx, pol int) (*sx, bool) {
+	if !n.hasQuant() {
+		return n, true
+	}
+	head := n.kids[0].atom
+	switch head {
+	case "forall", "exists":
+		if pol > 0 {
+			return &sx{atom: "true"}, true
+		}
+		return &sx{atom: "false"}, true
+	case "!":
+		return weaken(n.kids[1], pol)
+	case "and", "or":
+		out := &sx{kids: []*sx{n.kids[0]}}
+		for _, k := range n.kids[1:] {
+			w, ok := weaken(k, pol)
+			if !ok {
+				return nil, false
+			}
+			out.kids = append(out.kids, w)
+		}
+		return out, true
+	case "not":
+		w, ok := weaken(n.kids[1], -pol)
+		if !ok {
+			return nil, false
+		}
+		return &sx{kids: []*sx{n.kids[0], w}}, true
+	case "=>":
+		out := &sx{kids: []*sx{n.kids[0]}}
+		for i, k := range n.kids[1:] {
+			p := -pol
+			if i == len(n.kids)-2 {
+				p = pol
+			}
+			w, ok := weaken(k, p)
+			if !ok {
+				return nil, false
+			}
+			out.kids = append(out.kids, w)
+		}
+		return out, true
+	case "ite":
+		if n.kids[1].hasQuant() {
+			return nil, false
+		}
+		a, ok1 := weaken(n.kids[2], pol)
+		b, ok2 := weaken(n.kids[3], pol)
+		if !ok1 || !ok2 {
+			return nil, false
+		}
+		return &sx{kids: []*sx{n.kids[0], n.kids[1], a, b}}, true
+	}
+	return nil, false
+}
+
+func weakenAssert(line string) (string, bool) {
+	pos := 0
+	n := parseSx(line, &pos)
+	if n == nil || len(n.kids) != 2 || n.kids[0].atom != "assert" {
+		return "", false
+	}
+	w, ok := weaken(n.kids[1], 1)
+	if !ok {
+		return "", false
+	}
+	return "(assert " + w.String() + ")", true
+}
+
+var symRe = regexp.MustCompile(`[A-Za-z_][A-Za-z0-9_@!$.]*`)
+
+var smtKeywords = map[string]bool{"assert": true, "and": true, "or": true, "not": true, "ite": true, "select": true, "store": true,
+	"forall": true, "exists": true, "let": true, "true": true, "false": true, "distinct": true, "define": true, "fun": true, "declare": true,
+	"const": true, "Int": true, "Bool": true, "Array": true, "BitVec": true, "extract": true, "zero_extend": true, "sign_extend": true, "as": true,
+	"mk_slice": true, "sl_arr": true, "sl_off": true, "sl_len": true, "sl_cap": true, "Slice": true, "N0": true}
+
+func lineSyms(ln string) []string {
+	var out []string
+	for _, m := range symRe.FindAllString(ln, -1) {
+		if smtKeywords[m] || strings.HasPrefix(m, "bv") || strings.HasPrefix(m, "define-") || strings.HasPrefix(m, "declare-") {
+			continue
+		}
+		out = append(out, m)
+	}
+	return out
+}
+
+// slicedScript keeps only the hypotheses within `rounds` steps of the goal in the
+// "shares a (not ubiquitous) symbol" graph. Dropping hypotheses is sound for refutation.
+func slicedScript(script string, rounds int) string {
+	lines := strings.Split(script, "\n")
+	last := -1
+	nAssert := 0
+	for i, ln := range lines {
+		if strings.HasPrefix(ln, "(assert ") {
+			last = i
+			nAssert++
+		}
+	}
+	if last < 0 || nAssert < 12 {
+		return ""
+	}
+	defs := map[string][]string{}
+	syms := make([][]string, len(lines))
+	freq := map[string]int{}
+	for i, ln := range lines {
+		if strings.HasPrefix(ln, "(define-fun ") {
+			f := strings.Fields(ln)
+			name := f[1]
+			defs[name] = lineSyms(ln[len("(define-fun ")+len(name):])
+		} else if strings.HasPrefix(ln, "(assert ") {
+			syms[i] = lineSyms(ln)
+			seen := map[string]bool{}
+			for _, s := range syms[i] {
+				if !seen[s] {
+					seen[s] = true
+					freq[s]++
+				}
+			}
+		}
+	}
+	cut := nAssert / 4
+	if cut < 6 {
+		cut = 6
+	}
+	rel := map[string]bool{}
+	var add func(s string, depth int)
+	add = func(s string, depth int) {
+		if rel[s] || depth > 40 {
+			return
+		}
+		rel[s] = true
+		for _, d := range defs[s] {
+			add(d, depth+1)
+		}
+	}
+	for _, s := range syms[last] {
+		add(s, 0)
+	}
+	keep := map[int]bool{last: true}
+	for r := 0; r < rounds; r++ {
+		var newly []int
+		for i, ss := range syms {
+			if ss == nil || keep[i] {
+				continue
+			}
+			hit := false
+			for _, s := range ss {
+				if rel[s] && freq[s] <= cut && !strings.HasPrefix(s, "sp_") {
+					hit = true
+					break
+				}
+			}
+			if hit {
+				newly = append(newly, i)
+			}
+		}
+		for _, i := range newly {
+			keep[i] = true
+			for _, s := range syms[i] {
+				add(s, 0)
+			}
+		}
+	}
+	if len(keep) >= nAssert {
+		return ""
+	}
+	var b strings.Builder
+	for i, ln := range lines {
+		if strings.HasPrefix(ln, "(assert ") && !keep[i] {
+			continue
+		}
+		if strings.HasPrefix(ln, "(get-value") {
+			continue
+		}
+		b.WriteString(ln)
+		b.WriteByte('\n')
+	}
+	return b.String()
+}
+
+// SolveLight races the solvers on the full script and, if light is non-empty, on a weakened
+// script whose unsat answers count as well.
+func SolveLight(script, light string, timeoutS int, all bool) SolverResult {
 	ctx, cancel := context.WithCancel(context.Background())
 	defer cancel()
-	ch := make(chan SolverResult, len(solverDefs))
+	ch := make(chan SolverResult, 8*len(solverDefs))
 	var wg sync.WaitGroup
 	for _, sd := range solverDefs {
 		wg.Add(1)
@@ -87,6 +396,38 @@ func Solve(script string, timeoutS int, all bool) SolverResult {
 			defer wg.Done()
 			ch <- runOne(ctx, sd, script, timeoutS)
 		}(sd)
+	}
+	if light != "" {
+		// weakened variants start a little later: most obligations are decided at once
+		variants := []struct{ script, tag string }{{light, " (quantifier-free hypotheses)"}}
+		if s2 := slicedScript(script, 2); s2 != "" {
+			variants = append(variants, struct{ script, tag string }{s2, " (hypotheses near the goal)"})
+			if l2 := lightScript(s2); l2 != "" {
+				variants = append(variants, struct{ script, tag string }{l2, " (quantifier-free hypotheses near the goal)"})
+			}
+		}
+		for _, vr := range variants {
+			for _, sd := range solverDefs {
+				if sd.name == "z3-4.8.12" {
+					continue
+				}
+				wg.Add(1)
+				go func(sd solverDef, vs, tag string) {
+					defer wg.Done()
+					select {
+					case <-ctx.Done():
+						return
+					case <-time.After(1500 * time.Millisecond):
+					}
+					r := runOne(ctx, sd, vs, timeoutS)
+					if r.Status != "unsat" {
+						r.Status = "unknown" // a weakened script refutes, it never confirms
+					}
+					r.Solver += tag
+					ch <- r
+				}(sd, vr.script, vr.tag)
+			}
+		}
 	}
 	go func() { wg.Wait(); close(ch) }()
 	start := time.Now()
